@@ -19,7 +19,8 @@ EXPLANATION = (
     "and the radius reads both half extents (shared with C08: necessary for 'never skips an overlapping box'); "
     "(R15.5) both VisualSORT trackers compute the regions and the shares from one and the same list of boxes, which "
     "holds the box of every observation of the scene in order, and hand share[i] to the observation with index i."
-    " (R15.6) the polygon a box contributes is its rectangle rotated by +angle about its centre with vertices in boundary order, and area() in the denominator is that rectangle's area (exact formulas by rational-function normal form, evaluated where the code is straight-line arithmetic; a `match x % n` on a signed remainder with a wildcard arm for the last residue is reported).")
+    " (R15.6) the polygon a box contributes is its rectangle rotated by +angle about its centre with vertices in boundary order, and area() in the denominator is that rectangle's area (exact formulas by rational-function normal form, evaluated where the code is straight-line arithmetic; a `match x % n` on a signed remainder with a wildcard arm for the last residue is reported)."
+    ' R15.1 also requires that every way out of the per-box stage derives from the running region (no containment shortcut that returns a region without subtracting); (R15.7) the epsilon of the share denominator is the public constant EPS = 1e-5.')
 NOT_DECIDED = ["exactness / robustness of geo::BooleanOps::difference on near-degenerate inputs",
                "the numeric value of the share (only its formula, operand pairing and clamp are decided)",
                "soundness of the pre-filter bound as an inequality (only its wiring is decided)",
